@@ -79,7 +79,11 @@ class Lifespan:
         if not self.supported:
             return
 
-        await self.app_send_channel.send({"type": "lifespan.startup"})
+        try:
+            await self.app_send_channel.send({"type": "lifespan.startup"})
+        except (trio.BrokenResourceError, trio.ClosedResourceError):
+            return  # The app has returned, there is nothing to start
+
         try:
             with trio.fail_after(self.config.startup_timeout):
                 await self.startup.wait()
@@ -90,7 +94,11 @@ class Lifespan:
         if not self.supported:
             return
 
-        await self.app_send_channel.send({"type": "lifespan.shutdown"})
+        try:
+            await self.app_send_channel.send({"type": "lifespan.shutdown"})
+        except (trio.BrokenResourceError, trio.ClosedResourceError):
+            return  # The app has returned, there is nothing to shut down
+
         try:
             with trio.fail_after(self.config.shutdown_timeout):
                 await self.shutdown.wait()
